@@ -102,6 +102,10 @@ def concatenate(signals, /, axis=0):
     if not all(u.isclose(ref_sr, s.sample_rate, rtol=1e-12) for s in signals):
         raise ValueError("Signals must have the same sample_rate!")
 
+    # Start times must agree to a tenth of a sample (astropy's default tolerance
+    # of 38 ps is finer than the rounding of offsets beyond a few days).
+    atol = max(0.1 / ref_sr, 2 * np.finfo(float).eps * u.day)
+
     ref_st = None
     if axis in {0, "time"}:
         n = 0
@@ -109,7 +113,7 @@ def concatenate(signals, /, axis=0):
             if s.start_time is not None:
                 if ref_st is None:
                     ref_st = s.start_time - (n / ref_sr)
-                elif not Time.isclose(ref_st + (n / ref_sr), s.start_time):
+                elif not Time.isclose(ref_st + (n / ref_sr), s.start_time, atol=atol):
                     raise ValueError("Signals not contiguous in time.")
             n += len(s)
         axis = 0
@@ -118,7 +122,7 @@ def concatenate(signals, /, axis=0):
             if s.start_time is not None:
                 if ref_st is None:
                     ref_st = s.start_time
-                elif not Time.isclose(ref_st, s.start_time):
+                elif not Time.isclose(ref_st, s.start_time, atol=atol):
                     raise ValueError("Signals have different start_time.")
 
     kw = {"start_time": ref_st}
